@@ -110,9 +110,10 @@ func c09DrawAttrs(t *rapid.T, l string, srcKind int, g rsGlobal, v6 bool, target
 		case 1:
 			a.Originator = rsRouterID
 		}
-		ncl := rapid.IntRange(0, 2).Draw(t, l+"ncl")
+		// (3, 5, 6 entries: a decoded list whose slice has spare capacity)
+		ncl := rapid.SampledFrom([]int{0, 0, 1, 2, 3, 3, 5, 6}).Draw(t, l+"ncl")
 		for i := 0; i < ncl; i++ {
-			a.Cluster = append(a.Cluster, rapid.SampledFrom([]string{"10.8.8.8", "10.7.7.7", rsRouterID}).Draw(t, fmt.Sprintf("%scl%d", l, i)))
+			a.Cluster = append(a.Cluster, rapid.SampledFrom([]string{"10.8.8.8", "10.7.7.7", "10.6.6.6", "10.5.5.5", "10.8.8.8", "10.7.7.7", rsRouterID}).Draw(t, fmt.Sprintf("%scl%d", l, i)))
 		}
 	}
 	a.UnkT = rapid.SampledFrom([]int{0, 0, 3, 300}).Draw(t, l+"unkt")
